@@ -78,23 +78,37 @@ def indexOther (other : List (Str × List (Str × List Nat))) (a : Str) (e : Ele
     | none => other                       -- KeyError in the code; unreachable: both dicts are edited together
     | some m => assocSet other a (assocPush m v e.uid)
 
-/-- `_indexTag`. -/
-def indexTag (i : Idx) (e : Elem) : Idx :=
-  let i := if i.fnIDs then
-      (match e.attr (str "id") with
-       | some v => if v.isEmpty then i else { i with idMap := assocSet i.idMap v e.uid }
-       | none => i)
-    else i
-  let i := if i.fnNames then
-      (match e.attr (str "name") with
-       | some v => if v.isEmpty then i else { i with nameMap := assocPush i.nameMap v e.uid }
-       | none => i)
-    else i
-  let i := if i.fnClassNames then
-      { i with classNameMap := e.classes.foldl (fun m c => assocPush m c e.uid) i.classNameMap }
-    else i
-  let i := if i.fnTagNames then { i with tagNameMap := assocPush i.tagNameMap e.tag e.uid } else i
+/-- `_indexID`: a later element with the same id replaces the earlier one. -/
+def indexID (i : Idx) (e : Elem) : Idx :=
+  { i with idMap := match e.attr (str "id") with
+      | some v => if v.isEmpty then i.idMap else assocSet i.idMap v e.uid
+      | none => i.idMap }
+
+/-- `_indexName`. -/
+def indexName (i : Idx) (e : Elem) : Idx :=
+  { i with nameMap := match e.attr (str "name") with
+      | some v => if v.isEmpty then i.nameMap else assocPush i.nameMap v e.uid
+      | none => i.nameMap }
+
+/-- `_indexClassName`. -/
+def indexClassName (i : Idx) (e : Elem) : Idx :=
+  { i with classNameMap := e.classes.foldl (fun m c => assocPush m c e.uid) i.classNameMap }
+
+/-- `_indexTagName`. -/
+def indexTagName (i : Idx) (e : Elem) : Idx :=
+  { i with tagNameMap := assocPush i.tagNameMap e.tag e.uid }
+
+/-- the loop over `otherAttributeIndexFunctions.values()` -/
+def indexOthers (i : Idx) (e : Elem) : Idx :=
   { i with other := i.otherFns.foldl (fun o a => indexOther o a e) i.other }
+
+/-- `_indexTag`: the installed `indexFunctions` in their fixed order, then the attribute indexes. -/
+def indexTag (i : Idx) (e : Elem) : Idx :=
+  let i := if i.fnIDs then indexID i e else i
+  let i := if i.fnNames then indexName i e else i
+  let i := if i.fnClassNames then indexClassName i e else i
+  let i := if i.fnTagNames then indexTagName i e else i
+  indexOthers i e
 
 mutual
 /-- `_indexTagRecursive`. -/
